@@ -157,7 +157,10 @@ def run(model, col, tier):
     sub = Collector("C02")
     c02.run(model, sub, "quick")
     for ob in sub.obligations:
-        if ob.rule in ("R02.2", "R02.3"):
+        if ob.rule in ("R02.2", "R02.3", "R02.7", "R02.8", "R02.9"):
+            # R02.7: a forwarded load is replaced by the operand of the store *directly before it in its block* (anything else can be
+            # defined later / on another path: use before definition); R02.9: a pass object that remembers values of an earlier
+            # function hands out operands that are not values of this function
             ob.rule = "R14.5"
             col.obligations.append(ob)
     # ---------------- R14.6 ------------------------------------------------------
@@ -178,6 +181,25 @@ def run(model, col, tier):
     a3 = mk[0].args[2] if mk and len(mk[0].args) == 3 else None
     a3_ok = isinstance(a3, ast.ListComp) or (isinstance(a3, ast.Name) and bool(find_assign(vc, a3.id)))
     col.check(a3_ok, "R14.6", f"{LOWER}::v_CallExpression passes the operands", "CallInstruction(type, name, args)", None, LOWER, vc)
+    # the AST pass that re-builds argument lists (implicit casts) keeps one element per argument
+    from ..sem import appends_once_per_iteration
+
+    aic_v = model.cls("nsl/passes/AddImplicitCasts.py", "AddImplicitCastVisitor")
+    nreb = 0
+    for hname in ("v_CallExpression", "v_ConstructPrimitiveExpression"):
+        hh = aic_v.own_method(hname)
+        nodep_ = hh.args.args[1].arg
+        for lp_ in [n for n in ast.walk(hh) if isinstance(n, ast.For)]:
+            if "GetArguments" not in unparse(lp_.iter) and f"{nodep_}.children" not in unparse(lp_.iter) and unparse(lp_.iter) != nodep_:
+                continue
+            lists_ = {unparse(c.func.value) for c in ast.walk(lp_) if isinstance(c, ast.Call) and last_attr(c) == "append" and isinstance(c.func, ast.Attribute)}
+            for ln_ in sorted(lists_):
+                nreb += 1
+                ok_, why_ = appends_once_per_iteration(lp_, ln_)
+                col.check(ok_, "R14.6", f"nsl/passes/AddImplicitCasts.py::{hname} rebuilds `{ln_}` one element per argument", "every argument (converted or not) is appended exactly once",
+                          f"{why_}: the rebuilt argument list no longer has one entry per argument, so the call instruction passes fewer (or more) operands than the callee has parameters",
+                          "nsl/passes/AddImplicitCasts.py", lp_)
+    col.floor("R14.6", "argument lists rebuilt by the cast pass", nreb, 2)
     ci_init = model.cls(IR, "CallInstruction").own_method("__init__")
     dflt = [d for d in ci_init.args.defaults if isinstance(d, (ast.List, ast.Dict))]
     if dflt:
